@@ -333,3 +333,11 @@ mod test {
         assert_eq!(&block[..], &input[..]);
     }
 }
+
+/// Verification hook (off unless built with `--cfg cryptocorrosion_verif`): makes crate-private items
+/// reachable from the external contract harnesses in $CRYPTOCORROSION_VERIF_DIR. Add-only.
+#[cfg(cryptocorrosion_verif)]
+#[doc(hidden)]
+pub mod verif_incrate {
+    include!(concat!(env!("CRYPTOCORROSION_VERIF_DIR"), "/incrate/threefish_cipher.rs"));
+}
